@@ -193,20 +193,34 @@ def judge_partial_actions(name, acts, seed, depth=3):
     except Exception as e:  # noqa: BLE001
         return 1, f'{name} with action_space {list(acts)}: building the configuration raised {type(e).__name__}: {e}'
     n = 0
-    for seq in itertools.product(acts, repeat=depth):
-        env.set_seed(seed)
-        env.reset()
-        k = sdesc(env.state)
-        for a in seq:
-            env._rng = ChoiceRng([])
-            env.step(Action[a])
-            k2 = sdesc(env.state)
-            n += 1
-            want = ref_poses(names, k, a)
-            if pose(k2) not in want:
-                return n, (f'{name} with action_space {list(acts)}: {a} after {list(seq)}: pose {pose(k)} -> {pose(k2)}, reference '
-                           f'kinematics allows {sorted(want)}')
-            k = k2
+    # commanded through the inner interface (Action members) and through the gym adapter (the INDEX of the action in the
+    # configured list): either way the agent moves / turns as the commanded action says
+    import gym_gridverse.gym as GG
+    from gym_gridverse.outer_env import OuterEnv
+    from gym_gridverse.representations.observation_representations import make_observation_representation
+    ge = GG.GymEnvironment(OuterEnv(env, observation_representation=make_observation_representation('default', env.observation_space)))
+    for via in ('inner', 'gym'):
+        for seq in itertools.product(acts, repeat=depth):
+            env.set_seed(seed)
+            env.reset()
+            k = sdesc(env.state)
+            for a in seq:
+                env._rng = ChoiceRng([])
+                try:
+                    if via == 'inner':
+                        env.step(Action[a])
+                    else:
+                        ge.step(list(acts).index(a))
+                except Exception as e:  # noqa: BLE001
+                    return n, f'{name} with action_space {list(acts)}: {a} commanded through the {via} interface raised {type(e).__name__}: {e}'
+                k2 = sdesc(env.state)
+                n += 1
+                want = ref_poses(names, k, a)
+                if pose(k2) not in want:
+                    return n, (f'{name} with action_space {list(acts)}: {a} (through the {via} interface'
+                               f'{", index " + str(list(acts).index(a)) if via == "gym" else ""}) after {list(seq)}: pose {pose(k)} -> '
+                               f'{pose(k2)}, reference kinematics allows {sorted(want)}')
+                k = k2
     return n, None
 
 
@@ -259,7 +273,8 @@ def run(rep, tier, seed):
     pn = 0
     for name in ('empty.4x4', 'keydoor.5x5', 'teleport.5x5'):
         for acts in (('MOVE_FORWARD', 'TURN_LEFT', 'TURN_RIGHT'), ('MOVE_FORWARD', 'MOVE_BACKWARD', 'MOVE_LEFT', 'MOVE_RIGHT', 'TURN_LEFT'),
-                     ('MOVE_LEFT', 'TURN_RIGHT')):
+                     ('MOVE_LEFT', 'TURN_RIGHT'), ('TURN_RIGHT', 'MOVE_BACKWARD', 'TURN_LEFT', 'MOVE_FORWARD'),
+                     ('TURN_LEFT', 'TURN_RIGHT', 'MOVE_RIGHT', 'MOVE_LEFT', 'MOVE_BACKWARD', 'MOVE_FORWARD')):
             k, m = judge_partial_actions(name, acts, seed * 17 + 1)
             pn += k
             if m:
